@@ -104,3 +104,22 @@ Print Assumptions C11_full_run_hermitian.
    ODE; exp exactly for a frozen generator, rk4 to fourth order) is not mechanised; measured. *)
 Example C11_witness : mherm 2 (zero_mat ROps 2).
 Proof. intros i j Hi Hj. unfold fadj, zero_mat. rewrite (mget_mmk 2 2 _ j i Hj Hi), (mget_mmk 2 2 _ i j Hi Hj). apply cconj_0. Qed.
+
+(* the assembled A-FSSH pass with augmented_integration = "rk4" (Model/Traj.step_af_rk4: four RK4 sub-steps with the propagator
+   matrices themselves, the previous pass's for delR and this pass's for delP; tied to real runs by Run/RTraj.chkAr) - "both
+   moment-integration options": moments and density matrix are Hermitian after the pass whatever the hop and collapse decisions *)
+Theorem C11_full_step_rk4_hermitian :
+  forall n m dt poisson zeta (eprev e0 e1 : elec (T:=R)) fm1 lam Cm etas (s s' : astate (T:=R)) att coll,
+  step_af_rk4 ROps n m dt poisson zeta eprev e0 e1 fm1 lam Cm etas s = (s', att, coll) ->
+  mherm n (Wmid ROps n (eH eprev) (eH e0) (etau eprev) (etau e0) (pv (ab s)) (alastv s)) ->
+  (forall v1, mherm n (Wmid ROps n (eH e0) (eH e1) (etau e0) (etau e1) v1 (pv (ab s)))) ->
+  length lam = n -> unitary n (mget ROps Cm) -> (pact (ab s) < n)%nat ->
+  (forall t, att = Some (t, true) -> (t < n)%nat) ->
+  Forall (fun fmx => forall i j, (i < n)%nat -> (j < n)%nat -> nth j (nth i fmx []) (o0 ROps) = nth i (nth j fmx []) (o0 ROps)) fm1 ->
+  Forall (mherm n) (adelR s) -> Forall (mherm n) (adelP s) -> mherm n (prho (ab s)) ->
+  Forall (mherm n) (adelR s') /\ Forall (mherm n) (adelP s') /\ mherm n (prho (ab s')).
+Proof.
+  intros n m dt poisson zeta eprev e0 e1 fm1 lam Cm etas s s' att coll H1 H2 H3 H4 H5 H6 H7 H8 H9 H10 H11.
+  exact (step_af_rk4_hermitian n m dt poisson zeta eprev e0 e1 fm1 lam Cm etas s s' att coll H1 H2 H3 H4 H5 H6 H7 H8 H9 H10 H11).
+Qed.
+Print Assumptions C11_full_step_rk4_hermitian.
